@@ -161,6 +161,9 @@ struct Cfg {
     /// method effects derived from units (not listed in contracts/config.json): applied only at
     /// calls whose argument count matches a method of that name defined in the covered files
     eff_method_derived: HashSet<String>,
+    /// auto-included helpers / items the verifier rejected: helpers keep only their signature
+    /// (external_body, no contract), items are left out
+    opaque_auto: HashSet<String>,
     method_argc: HashMap<String, HashSet<usize>>,
     iter_renames: HashMap<String, String>,
     asref_map: HashMap<String, String>, // "Path" -> "&Path"
@@ -1778,6 +1781,7 @@ fn main() {
     }
     let cfg = Cfg {
         env,
+        opaque_auto: cfgv.get("opaque_auto").and_then(|x| x.as_array()).map(|a| a.iter().map(|x| x.as_str().unwrap().to_string()).collect()).unwrap_or_default(),
         eff_method_derived: cfgv.get("effects_method_derived").and_then(|x| x.as_array()).map(|a| a.iter().map(|x| x.as_str().unwrap().to_string()).collect()).unwrap_or_default(),
         method_argc,
         roots: cfgv["roots"].as_array().unwrap().iter().map(|x| x.as_str().unwrap().to_string()).collect(),
@@ -1844,6 +1848,11 @@ fn main() {
                             top_vals.insert(c.ident.to_string());
                         }
                     }
+                    Item::Type(c) => {
+                        if cfg.env.attrs_on(&c.attrs).unwrap_or(false) {
+                            top_vals.insert(c.ident.to_string());
+                        }
+                    }
                     _ => {}
                 }
             }
@@ -1879,10 +1888,14 @@ fn main() {
                     if !units.contains_key(&format!("fn:{n}")) {
                         auto_names.push(n.clone());
                         let mut more = HashSet::new();
-                        collect_idents_fn(f, &mut more);
+                        if !cfg.opaque_auto.contains(&format!("auto:{}:{}", fname, n)) {
+                            collect_idents_fn(f, &mut more);
+                        } else {
+                            IdentScan { out: &mut more }.visit_signature(&f.sig);
+                        }
                         work.extend(more.into_iter());
                     }
-                } else if top_vals.contains(&n) && !keep_items.contains(&n) {
+                } else if top_vals.contains(&n) && !keep_items.contains(&n) && !cfg.opaque_auto.contains(&format!("item:{}:{}", fname, n)) {
                     auto_items.push(n.clone());
                 }
             }
@@ -1908,6 +1921,7 @@ fn main() {
                 let mut u = UnitCfg::default();
                 u.id = format!("auto:{}:{}", fname, n);
                 u.world = modes[n].clone();
+                u.drop_body = cfg.opaque_auto.contains(&u.id);
                 extra_eff.insert(n.clone(), modes[n].clone());
                 units.insert(format!("fn:{n}"), u);
             }
@@ -1958,6 +1972,7 @@ fn main() {
                                 let mut u = UnitCfg::default();
                                 u.id = format!("auto:{}:{}::{}", fname, key, n);
                                 u.world = md.to_string();
+                                u.drop_body = cfg.opaque_auto.contains(&u.id);
                                 extra_eff.insert(format!(".{n}"), md.to_string());
                                 units.insert(at, u);
                                 auto_names.push(format!("{key}::{n}"));
@@ -2088,7 +2103,11 @@ fn main() {
                         Item::Struct(s) => make_pub(bv.fc, &s.vis, br(s.struct_token.span()).0),
                         Item::Enum(e) => make_pub(bv.fc, &e.vis, br(e.enum_token.span()).0),
                         Item::Const(c) => make_pub(bv.fc, &c.vis, br(c.const_token.span()).0),
-                        Item::Static(c) => make_pub(bv.fc, &c.vis, br(c.static_token.span()).0),
+                        Item::Static(c) => {
+                            make_pub(bv.fc, &c.vis, br(c.static_token.span()).0);
+                            let at = br(c.static_token.span()).0;
+                            bv.fc.edit_ord(at, at, "exec ", "R16.static", -1);
+                        }
                         Item::Type(t) => make_pub(bv.fc, &t.vis, br(t.type_token.span()).0),
                         _ => {}
                     }
